@@ -27,6 +27,8 @@ type c16Case struct {
 	Orf       string      `json:"orf,omitempty"`  // "" = none supplied
 	Orfs      []string    `json:"orfs,omitempty"` // several reference ORFs, in this order (instead of Orf)
 	Translate bool        `json:"translate,omitempty"`
+	// NoCutoff: SetLenCutoff(-1), SetMatchCutoff(-1) - no sequence is discarded for a short or poor hit
+	NoCutoff bool `json:"no_cutoff,omitempty"`
 	Reverse   bool        `json:"reverse,omitempty"`
 	CutEnd    bool        `json:"cutend,omitempty"`
 	Code      int         `json:"code,omitempty"`
@@ -257,6 +259,10 @@ func c16Phaser(cs c16Case) align.Phaser {
 	p.SetTranslate(cs.Translate, cs.Code)
 	p.SetReverse(cs.Reverse)
 	p.SetCutEnd(cs.CutEnd)
+	if cs.NoCutoff {
+		p.SetLenCutoff(-1)
+		p.SetMatchCutoff(-1)
+	}
 	if len(cs.Scores) == 2 {
 		p.SetAlignScores(cs.Scores[0], cs.Scores[1])
 	}
@@ -943,6 +949,28 @@ func c16Tasks(tier string) []mc.Task {
 						for _, tr := range []bool{false, true} {
 							for _, ce := range []bool{false, true} {
 								c16CheckPhase(c, c16Case{Kind: "phase", Seqs: []string{f5 + ref + "G"}, Orf: ref, Translate: tr, CutEnd: ce, Code: code, Cpus: 1, CodesBefore: before})
+							}
+						}
+					}
+				}
+			}
+		}
+	}})
+	// a sequence whose best hit leaves less than one codon (the reference's first two bases at its very end, a
+	// read of two bases, a read that stops inside the start codon) beside ordinary ones: an error for it, or a
+	// result that satisfies every clause - never a malformed result without an error; translation on and off
+	ts = append(ts, mc.Task{Name: "phase#less-than-a-codon", Run: func(c *mc.Ctx) {
+		ref := c16Refs[0]
+		for _, odd := range []string{strings.Repeat("C", 16) + ref[:2], ref[:2], ref[:1], "C" + ref[:2], strings.Repeat("C", 9) + ref[:4], ref[len(ref)-4:], ref[len(ref)-2:]} {
+			for _, tr := range []bool{false, true} {
+				for _, ce := range []bool{false, true} {
+					for _, code := range []int{align.GENETIC_CODE_STANDARD, align.GENETIC_CODE_VETEBRATE_MITO} {
+						for _, cpus := range []int{1, 3} {
+							set := []string{"CCGT" + ref + "GGT", odd, "C" + ref + "CG"}
+							for _, nc := range []bool{true, false} {
+								c16CheckPhase(c, c16Case{Kind: "phase", Seqs: set, Orf: ref, Translate: tr, CutEnd: ce, Code: code, Cpus: cpus, NoCutoff: nc})
+								c16CheckPhase(c, c16Case{Kind: "phase", Seqs: set, Translate: tr, CutEnd: ce, Code: code, Cpus: cpus, NoCutoff: nc})
+								c16CheckPhase(c, c16Case{Kind: "phase", Seqs: []string{odd}, Orf: ref, Translate: tr, CutEnd: ce, Code: code, Cpus: cpus, NoCutoff: nc})
 							}
 						}
 					}
